@@ -81,6 +81,40 @@ class EnvA:
         return self._slots[key]
 
 
+def generator_class(repo: Repo, cls: ClassInfo):
+    """The generator class an env instantiates by default: `generator = XGenerator(**generator_params)`
+    in the resolved __init__ (static, from the AST)."""
+    import ast as _ast
+    init = repo.resolve_method(cls, "__init__")
+    seen = set()
+    while init is not None and init.fq not in seen:
+        seen.add(init.fq)
+        cands = []
+        for n in _ast.walk(init.node):
+            if isinstance(n, _ast.Assign) and any(isinstance(t, _ast.Name) and t.id == "generator" for t in n.targets) and isinstance(n.value, _ast.Call) and isinstance(n.value.func, _ast.Name):
+                r = repo.resolve_global(init.module, n.value.func.id)
+                if r is not None and r[0] == "class":
+                    cands.append(r[1])
+        pref = [c for c in cands if "File" not in c.name] or cands
+        if pref:
+            return pref[-1]
+        init = repo.resolve_method(cls, "__init__", after=init.cls) if init.cls is not None else None
+    return None
+
+
+def generator_slot(repo: Repo, cls: ClassInfo):
+    """(generator class, Slot of its `_generate`) or (None, None)."""
+    g = generator_class(repo, cls)
+    if g is None:
+        return None, None
+    fi = repo.resolve_method(g, "_generate")
+    if fi is None:
+        return g, None
+    it = Interp(repo, g)
+    fr = it.run_function(fi)
+    return g, Slot(repo, g, "_generate", fi, it, fr)
+
+
 # ----------------------------------------------------------------------------- literal specs
 
 
